@@ -94,7 +94,11 @@ func EncodeEAP(e *EAP) ([]byte, error) {
 // ParseEAP is the strict reader: length field = size, Success/Failure bare,
 // and for EAP-AKA' every attribute 4-aligned with word length, zero padding and
 // exact bit length.
-func ParseEAP(b []byte) (*EAP, error) {
+func ParseEAP(b []byte) (*EAP, error) { return ParseEAPOpt(b, false) }
+
+// ParseEAPOpt: with spareWords, AT_RES / AT_KDF_INPUT may reserve whole zero words beyond the value (a sender is
+// free to do so; everything else stays strict).
+func ParseEAPOpt(b []byte, spareWords bool) (*EAP, error) {
 	if len(b) < 4 {
 		return nil, perr("EAP shorter than its header")
 	}
@@ -123,10 +127,11 @@ func ParseEAP(b []byte) (*EAP, error) {
 			return nil, perr("AKA' header too short")
 		}
 		e.Sub = d[0]
-		if d[1] != 0 || d[2] != 0 {
+		if (d[1] != 0 || d[2] != 0) && !spareWords {
+			// (not demanded of a packet that merely echoes what a foreign sender put there)
 			return nil, perr("AKA' reserved not zero")
 		}
-		at, err := ParseAKAAttrs(d[3:])
+		at, err := ParseAKAAttrsOpt(d[3:], spareWords)
 		if err != nil {
 			return nil, err
 		}
@@ -160,7 +165,9 @@ func AKASpans(b []byte) ([]AKASpan, error) {
 	return sp, nil
 }
 
-func ParseAKAAttrs(b []byte) ([]AKAAttr, error) {
+func ParseAKAAttrs(b []byte) ([]AKAAttr, error) { return ParseAKAAttrsOpt(b, false) }
+
+func ParseAKAAttrsOpt(b []byte, spareWords bool) ([]AKAAttr, error) {
 	sp, err := AKASpans(b)
 	if err != nil {
 		return nil, err
@@ -173,7 +180,7 @@ func ParseAKAAttrs(b []byte) ([]AKAAttr, error) {
 			if s.Len != 20 {
 				return nil, perr("attribute %d must be 5 words", s.T)
 			}
-			if a[2] != 0 || a[3] != 0 {
+			if (a[2] != 0 || a[3] != 0) && !spareWords {
 				return nil, perr("attribute %d reserved not zero", s.T)
 			}
 			out = append(out, AKAAttr{s.T, append([]byte(nil), a[4:]...)})
@@ -186,7 +193,7 @@ func ParseAKAAttrs(b []byte) ([]AKAAttr, error) {
 				return nil, perr("attribute %d bit length %d not octet aligned", s.T, bits)
 			}
 			n := bits / 8
-			if 4+n > s.Len || s.Len-4-n > 3 {
+			if 4+n > s.Len || (s.Len-4-n > 3 && !spareWords) {
 				return nil, perr("attribute %d: %d value octets do not fit %d words minimally", s.T, n, s.Len/4)
 			}
 			if !allZero(a[4+n:]) {
@@ -199,7 +206,7 @@ func ParseAKAAttrs(b []byte) ([]AKAAttr, error) {
 			}
 			out = append(out, AKAAttr{s.T, append([]byte(nil), a[2:]...)})
 		case AtCheckcode:
-			if s.Len < 4 || a[2] != 0 || a[3] != 0 {
+			if s.Len < 4 || ((a[2] != 0 || a[3] != 0) && !spareWords) {
 				return nil, perr("AT_CHECKCODE malformed")
 			}
 			out = append(out, AKAAttr{s.T, append([]byte(nil), a[4:]...)})
